@@ -2,6 +2,7 @@
 
 mod checks;
 mod diff;
+mod forms;
 mod framework;
 mod json;
 mod refbc;
@@ -48,6 +49,7 @@ fn main() {
         }
     }
     match args[0].as_str() {
+        "count-spaces" => count_spaces(),
         "find-level-probe" => {
             // development aid: programs whose printed IR differs between all of -O0..-O3
             let mut found = 0;
@@ -254,6 +256,8 @@ fn run_check(prop: &str, tier: Tier) -> i32 {
             let st = Command::new(exe_for("release")).args(["replay", &path]).output();
             match st {
                 Ok(o) if String::from_utf8_lossy(&o.stdout).contains("REPRODUCED") && o.status.code() == Some(1) => {}
+                // the replaying process itself died (memory corruption by the replayed case): reproduced
+                Ok(o) if o.status.code().is_none() => {}
                 Ok(o) => {
                     eprintln!(
                         "MACHINERY: replay of {path} diverged: {}",
@@ -304,10 +308,23 @@ fn run_check(prop: &str, tier: Tier) -> i32 {
         cov.put("traces_validated_against_impl", g("traces_validated").max(g("executions")).max(g("evaluations")));
     }
     let mut counters = J::obj();
+    let mut forms = J::obj();
     for (k, v) in &stats {
-        counters.put(k, *v);
+        if let Some(f) = k.strip_prefix("form:") {
+            forms.put(f, *v);
+        } else {
+            counters.put(k, *v);
+        }
     }
     cov.put("counters", counters);
+    if let J::Obj(m) = &forms {
+        if !m.is_empty() {
+            let reached: Vec<&String> = m.keys().collect();
+            let missing: Vec<String> = forms::interesting_forms().into_iter().filter(|f| !reached.iter().any(|r| r.as_str() == f)).collect();
+            cov.put("jit_instruction_forms_executed", forms.clone());
+            cov.put("jit_forms_of_interest_not_reached", missing);
+        }
+    }
     let mut kh = J::obj();
     for (k, v) in &known_hits {
         kh.put(k, *v);
@@ -349,4 +366,22 @@ fn write_replay(dir: &str, j: &J) -> String {
     let path = format!("{dir}/{h:016x}.json");
     let _ = std::fs::write(&path, text);
     path
+}
+
+#[allow(dead_code)]
+pub fn count_spaces() {
+    for k in 3..=6 {
+        let n = spaces::space_b(k, &mut |_, _| {});
+        println!("B({k}) = {n}");
+    }
+    for k in 5..=8 {
+        let n = spaces::space_a(k, &mut |_, _| {});
+        println!("A({k}) = {n}");
+    }
+    for k in 1..=3 {
+        let n = spaces::space_s(k, 0, &mut |_, _| {});
+        println!("S(1,{k}) = {n}");
+    }
+    println!("S2(2,1) = {}", spaces::space_s(2, 1, &mut |_, _| {}));
+    println!("W quick = {}, W full = {}", spaces::space_w(false, &mut |_, _| {}), spaces::space_w(true, &mut |_, _| {}));
 }
